@@ -98,6 +98,8 @@ class State:
         self.pure = 0
         self.spec = 0
         self.bound = []  # bound variables (z3 consts) of enclosing spec quantifiers
+        self.side = []  # stack of side-fact lists of enclosing spec quantifiers
+        self.side_seen = set()
         self.labels = {}
         self.dyn = {}  # z3 term id -> refined type for refs created with unknown element type
         self.pc.append(self.nref0 >= 1)
@@ -291,6 +293,9 @@ class Engine:
         if self.events_enabled:
             # the ghost trace lives at the reserved reference -1: it can alias no program object
             st.vars["$trace"] = V(("list", ("rec", (("kind", "str"),))), z3.IntVal(-1))
+        if c.d.get("yields"):
+            st.vars["$yields"] = V(("list", parse_type(c.d["yields"])), z3.IntVal(-2))
+            st.pc.append(self.hread("len", I, z3.IntVal(-2)) == 0)
         self.params = {nm: st.vars[nm] for nm in st.vars}
         for nm, v in self.params.items():
             self.input_closure(v, v.ty, [], [], 0)
@@ -361,17 +366,28 @@ class Engine:
                     self.input_closure(V(strip_opt(ft), z), ft, qs, guards + ([z != 0] if is_opt(ft) else []), depth + 1)
 
     def assume_wf(self, v, opt=False):
+        """well-formedness of a value read from the heap. Under a spec quantifier the facts (they mention the bound variables) are
+        collected in st.side and added by the quantifier as a separate, universally closed hypothesis (sound: they are true of every heap)."""
         st = self.st
-        if st.bound or v.z is None:
+        if v.z is None:
             return
+        sink = st.pc
+        if st.bound:
+            if not st.side:
+                return
+            sink = st.side[-1]
         if v.ty in ("str", "any"):
-            st.pc.append(v.z >= (0 if opt else 1))
+            sink.append(v.z >= (0 if opt else 1))
         elif is_ref(v.ty):
-            st.pc.append(z3.And(v.z >= (0 if opt else 1), v.z < st.nref))
+            sink.append(z3.And(v.z >= (0 if opt else 1), v.z < st.nref))
             # typed heap: a list is never an object, a dict never a tuple, ... (kinds of different container types do not alias)
             k = z3.Function("kind", I, I)(v.z)
-            kn = atom("kind:" + self.kind_name(v.ty))
-            st.pc.append(z3.Or(v.z == 0, k == kn) if opt else k == kn)
+            if v.ty[0] == "obj" and "|" in v.ty[1]:
+                alts = [k == atom("kind:" + self.kind_name(("obj", c_))) for c_ in v.ty[1].split("|")]  # union of unrelated classes
+                sink.append(z3.Or(*([v.z == 0] if opt else []), *alts))
+            else:
+                kn = atom("kind:" + self.kind_name(v.ty))
+                sink.append(z3.Or(v.z == 0, k == kn) if opt else k == kn)
 
     def assume_provenance(self, r, name, sort, owner):
         """a reference read from an object that is unchanged since an earlier point is older than that point"""
@@ -402,6 +418,10 @@ class Engine:
 
     def finish(self, outcome):
         c, st = self.c, self.st
+        # in postconditions a parameter name denotes the ARGUMENT (entry value), even if the body re-assigned the local
+        for nm, v in self.params.items():
+            if not nm.startswith("$"):
+                st.vars[nm] = v
         if outcome[0] == "return":
             st.vars["result"] = outcome[1]
             self.covered.add("return")
@@ -681,10 +701,11 @@ class Engine:
             raise OutOfSubset(f"record has no key {fname!r}: {owner_ty}")
         if owner_ty[0] == "tuple":
             return owner_ty[1 + int(fname[1:])]
-        cls = self.bi.ALIAS.get(owner_ty[1], owner_ty[1])
-        for c in self.bi.mro(self, cls):
-            if f"{c}.{fname}" in self.fields:
-                return self.fields[f"{c}.{fname}"]
+        for cls in owner_ty[1].split("|"):
+            cls = self.bi.ALIAS.get(cls, cls)
+            for c in self.bi.mro(self, cls):
+                if f"{c}.{fname}" in self.fields:
+                    return self.fields[f"{c}.{fname}"]
         if fname in self.fields:
             return self.fields[fname]
         return None
@@ -811,6 +832,24 @@ class Engine:
 
     def ev_Await(self, e):
         return self.ev(e.value)
+
+    def ev_Yield(self, e):
+        """a generator's yield appends the value to the ghost sequence $yields (reserved reference -2); the consumer is not modelled here"""
+        st = self.st
+        if st.spec or st.pure:
+            raise NeedFork()
+        v = self.ev(e.value) if e.value is not None else NONE
+        ys = st.vars.get("$yields")
+        if ys is None:
+            raise OutOfSubset("yield outside a generator contract (declare yields=<type>)")
+        vv = self.coerce(v, ys.ty[1])
+        n = self.len_of(ys)
+        name = self.el_name(ys.ty[1])
+        s_ = sort_of(ys.ty[1])
+        arr = self.hread(name, z3.ArraySort(I, s_), ys.z)
+        st.heap.store(name, z3.ArraySort(I, s_), ys.z, z3.Store(arr, n, vv.z))
+        st.heap.store("len", I, ys.z, n + 1)
+        return NONE
 
     def ev_Tuple(self, e):
         return self.new_tuple([self.ev(x) for x in e.elts])
@@ -960,6 +999,8 @@ class Engine:
             raise OutOfSubset(f"string operator {op}")
         if isinstance(a.ty, tuple) and a.ty[0] == "list" and op == "Add":
             return self.bi.list_concat(self, a, b)
+        if st.spec and (a.ty == "none" or b.ty == "none"):
+            return vint(fresh("none_arith"))  # spec: arithmetic on a value that is None on this path is unconstrained (guard it with isnone)
         for x in (a, b):
             if x.ty not in ("int", "real", "bool"):
                 raise OutOfSubset(f"operator {op} on {x.ty}: {U(e) if e is not None else ''}")
@@ -1371,6 +1412,8 @@ class Engine:
         mods = [self.ev_spec_value(x).z for x in spec.get("modifies_objs", [])]
         if "$trace" in st.vars and spec.get("emits", self.may_emit(n.body)):
             mods.append(st.vars["$trace"].z)  # the ghost trace may grow in this loop
+        if "$yields" in st.vars and any(isinstance(x, (ast.Yield, ast.YieldFrom)) for b in n.body for x in ast.walk(b)):
+            mods.append(st.vars["$yields"].z)
         nentry = st.nref
         names = self.assigned_names(n.body + ([n.target] if is_for else []))
         for nm in names:
